@@ -64,7 +64,7 @@ Apply(fl, box, op) ==
 VARIABLES fl, box, hist, firstv    \* firstv: ghost, the value of the first successful Fulfill (0: none yet)
 vars == <<fl, box, hist, firstv>>
 Flags == [mutable : BOOLEAN, recoverable : BOOLEAN, relay : BOOLEAN]
-Ops == {[op |-> "F", x |-> v] : v \in Values} \cup {[op |-> "X", x |-> v] : v \in {0} \cup Values}
+Ops == {[op |-> "F", x |-> v] : v \in {0} \cup Values} \cup {[op |-> "X", x |-> v] : v \in {0} \cup Values}
        \cup {[op |-> "R", x |-> v] : v \in {0} \cup Values} \cup {[op |-> "B", x |-> 0], [op |-> "W", x |-> 0]}
 
 Init == fl \in Flags /\ box = Empty /\ hist = <<>> /\ firstv = 0
